@@ -31,11 +31,11 @@ M = "optimism.Mechanics"
 
 def run(ctx):
     ctx.need_module(M)
-    d1(ctx)
-    d2(ctx)
+    ctx.guard(d1, ctx)
+    ctx.guard(d2, ctx)
     from .common import hook_agreement, mode_dispatch
-    hook_agreement(ctx, "D2/T6-one-gradient-transformation", f"{M}:create_dynamics_functions", min_sites=3)
-    mode_dispatch(ctx, "D2/T14-mode-dispatch", [f"{M}:parse_2D_to_3D_gradient_transformation", f"{M}:create_mechanics_functions"])
+    ctx.guard(hook_agreement, ctx, "D2/T6-one-gradient-transformation", f"{M}:create_dynamics_functions", min_sites=3)
+    ctx.guard(mode_dispatch, ctx, "D2/T14-mode-dispatch", [f"{M}:parse_2D_to_3D_gradient_transformation", f"{M}:create_mechanics_functions"])
     ctx.trust("exact rational arithmetic; normal forms of multivariate rational functions")
     ctx.assume("dt > 0, beta > 0")
 
